@@ -77,9 +77,11 @@ pub fn gen_behaviour(rng: &mut Rng, p: &Profile, len: usize, id: u64) -> Value {
                 json!({"op": "InvalidateIf", "pk": [], "vm": vm, "vr": rng.below(vm as u64)})
             }
         } else if c < 90 {
-            if has_exp && rng.chance(1, 3) {
-                // an iterator alive across a clock step
-                json!({"op": "IterSplit", "take": rng.below(3), "d": 1 + rng.below(p.max_adv)})
+            if (has_exp || sync_kind) && rng.chance(1, 3) {
+                // an iterator alive across a clock step; on the concurrent cache its owner may
+                // also call invalidate_all() before taking the rest
+                let xa = sync_kind && rng.chance(1, 2);
+                json!({"op": "IterSplit", "take": rng.below(3), "d": 1 + rng.below(p.max_adv), "xa": xa})
             } else {
                 json!({"op": "Iter"})
             }
@@ -93,7 +95,12 @@ pub fn gen_behaviour(rng: &mut Rng, p: &Profile, len: usize, id: u64) -> Value {
             continue;
         };
         let is_adv = op["op"] == "Advance" || op["op"] == "IterSplit";
+        let xa = op["op"] == "IterSplit" && op["xa"] == json!(true);
         ops.push(op);
+        if xa {
+            // the same call again as an ordinary event at the same reading (it changes nothing)
+            ops.push(json!({"op": "InvalidateAll"}));
+        }
         if sync_kind && !is_adv && (p.sync_every_op || rng.below(100) < p.p_sync) {
             ops.push(json!({"op": "Sync"}));
         }
@@ -385,6 +392,52 @@ fn gen_batch(kind: &str, count: u64, seed: u64) {
     }
 }
 
+/// More successful gets than the read queue has slots (384), issued without a write in the far
+/// housekeeping regime, then sync(): every one of them must have extended the idle timer of its
+/// entry ("guaranteed once pending maintenance has run"), so after a further clock step that
+/// passes the deadline counted from the insert, but not the one counted from the get, every key
+/// is still there.
+fn gen_reads(count: u64, seed: u64) {
+    use std::io::Write;
+    let out = std::io::stdout();
+    let mut o = std::io::BufWriter::new(out.lock());
+    let mut rng = Rng::new(seed);
+    let n: u32 = 450;
+    for id in 0..count {
+        let stepping = id % 2 == 1;
+        let tti: i64 = if stepping { 20 } else { 10 };
+        let ttl: i64 = *rng.pick(&[-1i64, 60]);
+        let cfg = json!({"kind": "sync", "cap": -1, "ttl": ttl, "tti": tti, "weigher": false,
+            "hasher": "mix", "nkeys": n, "lean": true, "seed": rng.below(1000)});
+        let mut ops: Vec<Value> = Vec::new();
+        for k in 1..=n {
+            ops.push(json!({"op": "Insert", "k": k, "v": k, "w": 1}));
+        }
+        ops.push(json!({"op": "Sync"}));
+        ops.push(json!({"op": "Advance", "d": 6}));
+        let start = rng.below(n as u64) as u32;
+        for j in 0..n {
+            let k = 1 + (start + j) % n;
+            ops.push(json!({"op": "Get", "k": k}));
+            if stepping && j % 100 == 99 {
+                // keep the clock moving so that housekeeping stays in the far regime
+                ops.push(json!({"op": "Advance", "d": 1}));
+            }
+        }
+        ops.push(json!({"op": "Sync"}));
+        ops.push(json!({"op": "Sync"}));
+        ops.push(json!({"op": "Advance", "d": if stepping { 12 } else { 6 }}));
+        for j in 0..10 {
+            // the keys read last are the ones whose records would not have found a slot
+            let k = if j < 6 { 1 + (start + n - 1 - rng.below(60) as u32) % n } else { 1 + rng.below(n as u64) as u32 };
+            let op = if (id + j) % 2 == 0 { "Contains" } else { "Get" };
+            ops.push(json!({"op": op, "k": k}));
+        }
+        ops.push(json!({"op": "Iter"}));
+        writeln!(o, "{}", json!({"id": id, "cfg": cfg, "ops": ops})).unwrap();
+    }
+}
+
 /// Stale nodes in an admission contest, enumerated: a full cache whose residents and whose
 /// newcomer have every combination of small popularities; then, in the far regime, one batch
 /// holding the insert of the newcomer and the invalidation of one or two residents, in every
@@ -533,6 +586,10 @@ pub fn cmd_gen(args: &[String]) {
     if args[0] == "unsync-batch" || args[0] == "sync-batch" {
         let kind = if args[0] == "unsync-batch" { "unsync" } else { "sync" };
         gen_batch(kind, args[2].parse().unwrap(), args[1].parse().unwrap());
+        return;
+    }
+    if args[0] == "sync-reads" {
+        gen_reads(args[2].parse().unwrap(), args[1].parse().unwrap());
         return;
     }
     if args[0] == "sync-grow" {
